@@ -380,6 +380,45 @@ pub fn run(ctx: &Ctx) {
             check(ctx, &p.spec, &sip, &dip, sp, dp, st)
         },
     );
+    // the same decision on real frames: the packet path of every analyzer reads the endpoints the decoder reads
+    let n = ctx.tier.pick(400_000, 8_000_000);
+    ctx.run_prop(
+        "config-x-frames",
+        "the same configurations x endpoints, carried by a real TCP segment: IPv4 with IHL 5..15 (0..40 bytes of IP options) or IPv6, Ethernet / raw IP / loopback framing, SYN or data segment, TCP options present or not; oracle: raw_filter::apply of the TCP (also used by the unified analyzer), HTTP and TLS crates == the boolean reference over the segment's endpoints; non-trivial: IP options present or non-Ethernet framing",
+        n,
+        || ((filter_spec(), (any::<u16>(), any::<u16>(), any::<u16>(), any::<u16>(), any::<u8>()), (any::<u128>(), any::<u128>(), any::<u16>(), any::<u16>())).prop_map(|(spec, sel, rnd)| Probe { spec, sel, rnd }), 0u8..11, 0u8..3, any::<bool>(), any::<bool>()),
+        |(p, ipopt_words, link, syn, tcpopts): &(Probe, u8, u8, bool, bool), st: &mut Stats| {
+            use crate::gen::frames::{self as fr, frame, Ip, Ip4, Ip6, Link, Tcp};
+            let (sip, dip, sp, dp) = resolve(p);
+            let exp = reference(&p.spec, &sip, &dip, sp, dp);
+            if reference_with_empty0(&p.spec, &sip, &dip, sp, dp).is_some() {
+                return Ok(()); // the documented special case of `0..0` ranges is decided by config-x-endpoints
+            }
+            let ip = match (sip, dip) {
+                (IpAddr::V4(a), IpAddr::V4(b)) => Ip::V4(Ip4 { src: a.octets(), dst: b.octets(), ihl: 5 + ipopt_words, options: vec![1u8; 4 * *ipopt_words as usize], ..Ip4::default() }),
+                (IpAddr::V6(a), IpAddr::V6(b)) => Ip::V6(Ip6 { src: a.octets(), dst: b.octets(), ..Ip6::default() }),
+                _ => return Ok(()),
+            };
+            let link_sel = *link;
+            let link = [Link::Ether, Link::Raw, Link::Null][link_sel as usize];
+            let tcp = Tcp { sport: sp, dport: dp, seq: 7, flags: if *syn { fr::SYN } else { fr::ACK | fr::PSH }, options: if *tcpopts { fr::opt::mss(1460) } else { vec![] }, payload: if *syn { vec![] } else { b"GET / HTTP/1.1\r\n\r\n".to_vec() }, ..Tcp::default() };
+            let f = frame(link, &ip, &tcp);
+            if link == Link::Raw && crate::gen::frames::raw_is_ambiguous(&f) {
+                return Ok(());
+            }
+            if *ipopt_words > 0 || link != Link::Ether {
+                st.nontrivial(&(p, ipopt_words, link_sel));
+            }
+            st.class(if exp { "expected:admit" } else { "expected:reject" });
+            let got = [("tcp", huginn_net_tcp::raw_filter::apply(&f, &tcp_cfg(&p.spec))), ("http", huginn_net_http::raw_filter::apply(&f, &http_cfg(&p.spec))), ("tls", huginn_net_tls::raw_filter::apply(&f, &tls_cfg(&p.spec)))];
+            for (name, g) in got {
+                if g != exp {
+                    return Err(fail!(format!("frame:{name}-filter-decides-otherwise"), "{sip}:{sp} -> {dip}:{dp} ihl {} link {:?}: expected {exp} got {g} for {:?}", 5 + ipopt_words, link, p.spec));
+                }
+            }
+            Ok(())
+        },
+    );
     // exhaustive ports for generated port filters
     let nf = ctx.tier.pick(300u64, 5000);
     ctx.run_indexed(
